@@ -111,6 +111,7 @@ let run (path : String.t) =
       if not (obs_c02_ok evs) then (add "c02"; add "c08"; why := "obs_c02" :: !why);
       if not (obs_c10_ok evs) then (add "c10"; why := "obs_c10" :: !why);
       if not (obs_rr_c09_bounded_ok evs) then (add "c09"; why := "bounded" :: !why);
+      if not (obs_rr_flushed_at_completion evs) then (add "c16"; why := "unflushed_at_completion" :: !why);
       let drained = (fin = "quiesce" || fin = "close") && !special = None in
       if drained then begin
         (* once the channel is closed the router only flushes and stops: a reply still buffered for a
